@@ -717,6 +717,21 @@ class FnTranslator:
                 for t, tm in zip(s.targets[0].elts, tmps):
                     out.append(ast.Assign(targets=[ast.Name(id=t.id, ctx=ast.Store())], value=ast.Name(id=tm, ctx=ast.Load())))
                 continue
+            if isinstance(s, ast.Assign) and len(s.targets) == 1 and isinstance(s.targets[0], ast.Tuple) \
+                    and not isinstance(s.value, (ast.Tuple, ast.List)) \
+                    and all(isinstance(t, (ast.Name, ast.Subscript)) for t in s.targets[0].elts):
+                # [loop ties C17] a, b = e  with e not a tuple display: unpacking a sequence is indexing it --
+                # a = e[0]; b = e[1] (a wrong length is an error path).  e is an opaque input here: it translates
+                # only when the spec declares the source expressions `e[0]`, `e[1]` as typed parameters
+                parts = []
+                for k, t in enumerate(s.targets[0].elts):
+                    item = ast.Subscript(value=self.as_load(s.value), slice=ast.Constant(value=k), ctx=ast.Load())
+                    a = ast.Assign(targets=[t], value=item)
+                    a.lineno, a.col_offset = 0, 0
+                    ast.fix_missing_locations(a)
+                    parts.append(a)
+                out += self.desugar(parts)
+                continue
             tgt = val = None
             if isinstance(s, ast.AugAssign):
                 tgt, val = s.target, ast.BinOp(left=self.as_load(s.target), op=s.op, right=s.value)
